@@ -12,20 +12,36 @@
 #include <string.h>
 
 static const int* g_hb = 0;
+static const float* g_en = 0;
 static int g_frame = 0;
+
+// Like the real kabsch_sander, this stand-in does NOT initialise its output arrays: it relies on what
+// dssp() hands it for the frame and only stores a bond when it beats what is already there (the logic of
+// store_energies in geometry.cpp).  State carried over from a previous frame therefore shows.
+static void shim_store(int* hbonds, float* henergies, int donor, int acceptor, float e) {
+    float e0 = henergies[2*donor], e1 = henergies[2*donor+1];
+    if (isnan(e0) || e < e0) {
+        hbonds[2*donor+1] = hbonds[2*donor]; henergies[2*donor+1] = e0;
+        hbonds[2*donor] = acceptor; henergies[2*donor] = e;
+    } else if (isnan(e1) || e < e1) {
+        hbonds[2*donor+1] = acceptor; henergies[2*donor+1] = e;
+    }
+}
 
 extern "C" void kabsch_sander(const float* xyz, const int* nco_indices, const int* ca_indices,
                    const int* is_proline, const int n_frames, const int n_atoms,
                    const int n_residues, int* hbonds, float* henergies) {
-    for (int k = 0; k < 2 * n_residues; k++) {
-        hbonds[k] = g_hb[g_frame * 2 * n_residues + k];
-        henergies[k] = (hbonds[k] >= 0) ? -1.0f : 0.0f;
-    }
+    for (int d = 0; d < n_residues; d++)
+        for (int k = 0; k < 2; k++) {
+            int a = g_hb[g_frame * 2 * n_residues + 2*d + k];
+            if (a >= 0)
+                shim_store(hbonds, henergies, d, a, g_en[g_frame * 2 * n_residues + 2*d + k]);
+        }
     g_frame++;
 }
 
 // missing[i] bitmask: 1 = N, 2 = C, 4 = O, 8 = CA absent
-extern "C" int shim_dssp(int n_frames, int n, const int* hb, const int* chain_ids, const int* missing,
+extern "C" int shim_dssp(int n_frames, int n, const int* hb, const float* en, const int* chain_ids, const int* missing,
                          const int* turn_deg, char* out) {
     const int n_atoms = 4 * n;
     std::vector<float> xyz((size_t) n_frames * n_atoms * 3, 0.0f);
@@ -48,7 +64,7 @@ extern "C" int shim_dssp(int n_frames, int n, const int* hb, const int* chain_id
             }
         }
     }
-    g_hb = hb; g_frame = 0;
+    g_hb = hb; g_en = en; g_frame = 0;
     dssp(&xyz[0], &nco[0], &ca[0], &pro[0], chain_ids, n_frames, n_atoms, n, out);
     return g_frame;
 }
